@@ -560,7 +560,7 @@ def run(ctx):
         r = tlc_run(ctx, "Config/ConfigLines.tla", "ConfigLines_mc4.cfg", workers=8, timeout=1500)
         ctx.log("mc4: LineIndependent/InRange on %d specification states (%.0fs)" % (r.distinct, r.wall))
         cams += run_family(ctx, exe, "resolv4", "ConfigLines_gen4.cfg", stats, private, timeout=1500)
-        cams += run_family(ctx, exe, "sim8", "ConfigLines_sim.cfg", stats, private, timeout=900, simulate=25, depth=14)
+        cams += run_family(ctx, exe, "sim8", "ConfigLines_sim.cfg", stats, private, timeout=900, simulate=150, depth=14, workers=1)
     trace_validation(ctx, cams, stats, private)
 
     import c15_strings
